@@ -431,11 +431,10 @@ Proof.
   repeat split; congruence.
 Qed.
 
-(** a declared argument of the lifted class: a positional takes no hyphen / negative-number values (it may be [last(true)] /
-    [trailing_var_arg]); an option has neither [last] nor [trailing_var_arg] ([require_equals], terminators, hyphen values: free) *)
+(** a declared argument of the lifted class: no explicit index; an option has neither [last] nor [trailing_var_arg]
+    ([require_equals], terminators, hyphen / negative-number values, and for positionals [last(true)] / [trailing_var_arg]: free) *)
 Definition convx_arg0 (a : arg) : bool :=
-  negb (is_some (a_index a)) &&
-  (if a_is_positional a then negb (a_hyphen a) && negb (a_negnum a) else negb (a_last a) && negb (a_tva a)).
+  negb (is_some (a_index a)) && (a_is_positional a || (negb (a_last a) && negb (a_tva a))).
 Definition user_conventionalx (c0 : cmd) : bool :=
   negb (s_built (c_set c0))
   && negb (is_set s_sub_precedence c0) && negb (is_set s_allow_missing_pos c0)
@@ -468,13 +467,8 @@ Proof.
   - intros a Ha E. unfold convx_arg0 in Ha. apply andb_prop in Ha. destruct Ha as [Hi Ha].
     destruct (ab_flags a) as [F1 [F2 [F3 F4]]]. rewrite ab_positional, ab_index in E.
     destruct (a_index a) eqn:Ei; [discriminate Hi|]. cbn [is_some negb] in E. rewrite andb_true_r in E. rewrite E in Ha.
-    unfold convx_arg. rewrite ab_index, Ei, F1, F2. cbn [is_some negb orb]. rewrite Ha. reflexivity.
-  - intros a n Ha Hp _. unfold convx_arg0 in Ha. apply andb_prop in Ha. destruct Ha as [_ Ha].
-    rewrite ab_positional in Hp. rewrite Hp in Ha. destruct (ab_flags a) as [_ [_ [F3 F4]]].
-    unfold convx_arg. change (a_index ((arg_build a) <| a_index := Some n |>)) with (Some n).
-    change (a_hyphen ((arg_build a) <| a_index := Some n |>)) with (a_hyphen (arg_build a)).
-    change (a_negnum ((arg_build a) <| a_index := Some n |>)) with (a_negnum (arg_build a)).
-    rewrite F3, F4. cbn [is_some negb orb]. exact Ha.
+    unfold convx_arg. rewrite ab_index, Ei, F1, F2. cbn [is_some negb orb] in *. exact Ha.
+  - intros a n Ha Hp _. reflexivity.
   - reflexivity.
   - reflexivity.
   - intros Hbt. rewrite Hbt in Eb. discriminate.
